@@ -196,6 +196,7 @@ def c16(tier, seed):
     runs = [Run('e4_residue', m, ['--build', m], label='e4_residue[%s]' % m) for m in modes]
     runs.append(Run('e1_bfs', 'asan', ['api', '2']))     # zero-at-free / memzero-before-free on every free of every reachable history
     runs.append(Run('e2_fault', 'asan', []))             # ... and on every release made while any one allocation request of a call fails
+    runs.append(Run('e2_long', 'asan', []))              # ... and when hundreds of seeds are alive or tens of thousands of calls have been made
     def cov(results):
         return {'builds': modes, 'cells_reached_per_build': {res['_label']: res.get('cells_reached') for r, res in results if r.prog == 'e4_residue'},
                 'bytes_scanned': sum(res.get('bytes_scanned', 0) for r, res in results), 'cells_expected': 63}
